@@ -96,12 +96,20 @@ def compat_cells():
 # ---------------------------------------------------------------------------------------------------------------------------
 # part 2: illegal expressions / statements in every position and context
 # ---------------------------------------------------------------------------------------------------------------------------
-SUPPORT = """class Priv { private int secret = 1; protected int prot = 2; public int pub = 3; public final int ff = 5; private constructor(int hidden) -> Priv { } public constructor() -> Priv = default;
+SUPPORT = """class LeafFirst extends MidA { public constructor() -> LeafFirst { super(); } }
+class ImplFirst extends MidA { public constructor() -> ImplFirst { super(); } public override function pure() -> int { return 1; } }
+class MidA extends Abs { public int mid = 1; public constructor() -> MidA { super(); } }
+class OwnPure { public constructor() -> OwnPure = default; public virtual function pure2() -> int; }
+class Priv { private int secret = 1; protected int prot = 2; public int pub = 3; public final int ff = 5; private constructor(int hidden) -> Priv { } public constructor() -> Priv = default;
     private function hid() -> int { return 1; } protected function ph() -> int { return 2; } public function open() -> int { return 3; } private static function shid() -> int { return 4; } public static int spub = 9; private static int spriv = 8; }
 abstract class Abs { public constructor() -> Abs = default; public virtual function pure() -> int; }
 static class Stat { public static int n = 1; public static function f() -> int { return 1; } }
+class LeafLast extends MidA { public constructor() -> LeafLast { super(); } }
+class ImplLast extends MidA { public constructor() -> ImplLast { super(); } public override function pure() -> int { return 1; } }
 function vf() -> void { }
 function idf(int a) -> int { return a; }
+function idf4(Abs p) -> int { return 1; }
+function idf5(OwnPure p) -> int { return 1; }
 """
 # name -> (violating expression, repaired expression), both of type int unless noted
 EXPR_RULES = {
@@ -118,6 +126,12 @@ EXPR_RULES = {
     "increment-final-local": ("fin++", "ok++"),
     "assign-final-field-outside-ctor": ("(po.ff = 2)", "(po.pub = 2)"),
     "new-abstract": ("idf2(new Abs())", "idf2(new Priv())"),
+    # abstract without the keyword: a bodyless virtual of its own; inherited and unimplemented over two and three levels, with the
+    # leaf declared before / after its bases (the repaired twin instantiates the sibling that implements the method)
+    "new-class-with-own-bodyless-virtual": ("idf5(new OwnPure())", "idf4(new ImplLast())"),
+    "new-abstract-by-inheritance-2-levels": ("idf4(new MidA())", "idf4(new ImplLast())"),
+    "new-abstract-by-inheritance-3-levels-leaf-declared-first": ("idf4(new LeafFirst())", "idf4(new ImplFirst())"),
+    "new-abstract-by-inheritance-3-levels-leaf-declared-last": ("idf4(new LeafLast())", "idf4(new ImplLast())"),
     "new-static-class": ("idf3(new Stat())", "idf2(new Priv())"),
     "new-private-ctor": ("idf2(new Priv(1))", "idf2(new Priv())"),
     "null-to-int-argument": ("idf(null)", "idf(1)"),
